@@ -27,12 +27,13 @@ fn expand(seed: u64, len: usize) -> Vec<u8> {
 }
 
 // ---- a reader that returns the data in the pieces given by `cuts` ------------------------------
-struct SegReader<'a> { data: &'a [u8], cuts: &'a [usize], pos: usize }
+struct SegReader<'a> { data: &'a [u8], cuts: &'a [usize], pos: usize, chunk: usize }
 impl<'a> Read for SegReader<'a> {
     fn read(&mut self, buf: &mut [u8]) -> std::io::Result<usize> {
         if self.pos >= self.data.len() || buf.is_empty() { return Ok(0); }
         let next_cut = self.cuts.iter().copied().find(|c| *c > self.pos).unwrap_or(self.data.len()).min(self.data.len());
-        let n = (next_cut - self.pos).min(buf.len());
+        let mut n = (next_cut - self.pos).min(buf.len());
+        if self.chunk > 0 { n = n.min(self.chunk); }
         buf[..n].copy_from_slice(&self.data[self.pos..self.pos + n]);
         self.pos += n;
         Ok(n)
@@ -42,9 +43,12 @@ impl<'a> Read for SegReader<'a> {
 #[derive(Debug, Clone, PartialEq)]
 enum Got { Ok(RawFrame, usize), Err(String), Panic }
 
-fn decode_with(data: &[u8], cuts: &[usize]) -> Got {
+fn decode_with(data: &[u8], cuts: &[usize]) -> Got { decode_chunked(data, cuts, 0) }
+
+/// `chunk` > 0: no read returns more than `chunk` bytes (sizes that are not multiples of 4 exercise the unmasking index)
+fn decode_chunked(data: &[u8], cuts: &[usize], chunk: usize) -> Got {
     let r = catch_unwind(|| {
-        let mut rd = SegReader { data, cuts, pos: 0 };
+        let mut rd = SegReader { data, cuts, pos: 0, chunk };
         let res = decode(&mut rd);
         (res, rd.pos)
     });
@@ -101,7 +105,8 @@ fn got_json(g: &Got) -> Value {
     match g { Got::Ok(f, used) => json!({"ok": short(f), "used": used}), Got::Err(e) => json!({"err": e}), Got::Panic => json!("panic") }
 }
 
-struct Replay { xor: Vec<Vec<u8>>, rng: Rng, frames: Part, hdrs: Part, wires: Part, msgs: Part }
+struct Replay { xor: Vec<Vec<u8>>, rng: Rng, frames: Part, hdrs: Part, wires: Part, msgs: Part, big: Part, huge: Part, pairs: Part,
+                prev: Option<(Vec<u8>, RawFrame)> }
 
 impl Replay {
     fn unmask(&self, p: &[u8], key: &[u8; 4]) -> Vec<u8> {
@@ -126,7 +131,7 @@ impl Replay {
         twice.extend_from_slice(wire);
         let cut = [wire.len() / 2, wire.len() + 1];
         let r = catch_unwind(|| {
-            let mut rd = SegReader { data: &twice, cuts: &cut, pos: 0 };
+            let mut rd = SegReader { data: &twice, cuts: &cut, pos: 0, chunk: 0 };
             let a = decode(&mut rd);
             let b = decode(&mut rd);
             let c = decode(&mut rd);
@@ -180,6 +185,26 @@ impl Replay {
         let exp = RawFrame { fin, rsv, opcode: op, mask, length: len as u64, masking_key: if mask { key } else { [0; 4] },
                              payload: if mask { self.unmask(&p, &key) } else { p.clone() } };
         self.check_decode(0, &wire, hdr.len(), &exp, &ctxv);
+        // 2b. the previous (different) frame and this one on the same connection: the first must not eat into the second
+        if let Some((pw, pexp)) = self.prev.take() {
+            let mut both = pw.clone();
+            both.extend_from_slice(&wire);
+            let cut = [pw.len().saturating_sub(1), pw.len() + 1];
+            let r = catch_unwind(|| {
+                let mut rd = SegReader { data: &both, cuts: &cut, pos: 0, chunk: 0 };
+                let a = decode(&mut rd);
+                let b = decode(&mut rd);
+                (a, b, rd.pos)
+            });
+            self.pairs.evals += 1;
+            if pexp.length == 0 && pexp.mask { self.pairs.nontrivial += 1; }
+            match r {
+                Ok((Ok(a), Ok(b), pos)) if a == pexp && b == exp && pos == both.len() => {}
+                other => self.pairs.bad(json!({"what": "two different frames on one connection", "first": short(&pexp), "second": ctxv,
+                    "got": format!("{:?}", other.map(|(a, b, p)| (a.map(|f| short(&f).to_string()), b.map(|f| short(&f).to_string()), p)))})),
+            }
+        }
+        if wire.len() <= 300 { self.prev = Some((wire.clone(), exp.clone())); }
         // 3. Message::to_frame is the unmasked, final, unreserved single frame
         if fin && !mask && rsv == [false; 3] && (op == 1 || op == 2) {
             let (payload, msg) = if op == 2 { (p.clone(), Message::new_binary(&p)) } else {
@@ -197,6 +222,68 @@ impl Replay {
                 self.msgs.samples.push(json!({"message": if op == 1 { "text" } else { "binary" }, "len": len, "to_frame_head": hex(&got)}));
             }
         }
+    }
+
+    /// lessons L2: payloads around the 4 KiB block size and of several MiB, under readers returning at most `c` bytes per read
+    fn bigframe_line(&mut self, v: &Value) {
+        let (fin, rsv, op, mask) = (bit(&v["fin"]), rsv_of(&v["rsv"]), v["op"].as_u64().unwrap() as u8, bit(&v["mask"]));
+        let key = key_of(&v["key"]);
+        let len = v["len"].as_u64().unwrap() as usize;
+        let seed = v["seed"].as_u64().unwrap();
+        let hdr = u8s(&v["hdr"]);
+        let p = expand(seed, len);
+        let mut wire = hdr.clone();
+        wire.extend_from_slice(&p);
+        let ctxv = json!({"fin": fin, "rsv": rsv, "op": op, "mask": mask, "key": key, "len": len, "seed": seed});
+        let enc = encode_of(&RawFrame { fin, rsv, opcode: op, mask, length: len as u64, masking_key: key, payload: p.clone() });
+        self.big.evals += 1;
+        self.big.nontrivial += 1;
+        if enc.as_deref() != Some(&wire[..]) {
+            let e = enc.unwrap_or_default();
+            self.big.bad(json!({"what": "encode", "case": ctxv, "expected_header": hex(&hdr), "got_head": hex(&e), "expected_len": wire.len(), "got_len": e.len()}));
+        }
+        let exp = RawFrame { fin, rsv, opcode: op, mask, length: len as u64, masking_key: if mask { key } else { [0; 4] },
+                             payload: if mask { self.unmask(&p, &key) } else { p.clone() } };
+        let mut chunks = vec![0usize, 3, 7, 4093, 4096, 4099, 65535, 65537];
+        if len <= 4097 { chunks.extend([1, 2, 5]); }
+        for c in chunks {
+            let cuts = [hdr.len() + 1 + c % 3];
+            let g = decode_chunked(&wire, &cuts, c);
+            self.big.evals += 1;
+            if g != Got::Ok(exp.clone(), wire.len()) {
+                let at = match &g { Got::Ok(f, _) => f.payload.iter().zip(exp.payload.iter()).position(|(a, b)| a != b), _ => None };
+                self.big.bad(json!({"what": "decode of a large frame under bounded reads", "case": ctxv, "max_read": c, "first_differing_payload_octet": at,
+                    "expected": short(&exp), "got": got_json(&g)}));
+                break;
+            }
+        }
+        for k in [hdr.len(), hdr.len() + 1, 4096.min(wire.len() - 1), wire.len() - 4, wire.len() - 1] {
+            let g = decode_chunked(&wire[..k], &[], 4093);
+            self.big.evals += 1;
+            if g != Got::Err("ReadError".into()) {
+                self.big.bad(json!({"what": "truncated large frame must give a read error", "case": ctxv, "kept_bytes": k, "got": got_json(&g)}));
+            }
+        }
+        if self.big.samples.len() < 2 && mask && len > 1 << 20 { self.big.samples.push(json!({"frame": ctxv, "header": hex(&hdr), "max_read_sizes": [0, 3, 7, 4093, 4096, 4099, 65535, 65537]})); }
+    }
+
+    /// lessons L1: 64-bit length fields at 2^31-1 .. 2^64-1 (with and without MASK): whatever follows, a read error - no panic, no overflow
+    fn huge_line(&mut self, v: &Value) {
+        let h = u8s(&v["h"]);
+        let spec = v["exp"].as_str().unwrap();
+        for tail in [0usize, 1, 4, 13, 4096, 1 << 20] {
+            let mut w = h.clone();
+            w.extend(self.rng.bytes(tail));
+            for c in [0usize, 3] {
+                let g = decode_chunked(&w, &[h.len() - 1], c);
+                self.huge.evals += 1;
+                if !(spec == "ReadError" && g == Got::Err("ReadError".into())) {
+                    self.huge.bad(json!({"what": "length field beyond any input", "header": hex(&h), "bytes_after_header": tail, "max_read": c, "spec": spec, "got": got_json(&g)}));
+                }
+            }
+        }
+        self.huge.nontrivial += 1;
+        if self.huge.samples.len() < 2 && h[1] >= 128 && h[2] == 255 { self.huge.samples.push(json!({"header": hex(&h), "any_continuation": "ReadError"})); }
     }
 
     fn hdr2_line(&mut self, v: &Value) {
@@ -283,7 +370,8 @@ impl Replay {
 }
 
 fn replay() {
-    let mut r = Replay { xor: vec![vec![]; 256], rng: Rng::from_env(), frames: Part::default(), hdrs: Part::default(), wires: Part::default(), msgs: Part::default() };
+    let mut r = Replay { xor: vec![vec![]; 256], rng: Rng::from_env(), frames: Part::default(), hdrs: Part::default(), wires: Part::default(), msgs: Part::default(),
+                         big: Part::default(), huge: Part::default(), pairs: Part::default(), prev: None };
     let mut lines = 0u64;
     for line in stdin_lines() {
         let v: Value = match serde_json::from_str(&line) { Ok(v) => v, Err(_) => continue };
@@ -293,13 +381,15 @@ fn replay() {
             k => {
                 assert!(r.xor.iter().all(|row| row.len() == 256), "xor rows must come first");
                 match k { "frame" => r.frame_line(&v), "hdr2" => r.hdr2_line(&v), "wire" => r.wire_line(&v),
+                          "bigframe" => r.bigframe_line(&v), "huge" => r.huge_line(&v),
                           other => { eprintln!("unknown line kind {:?}", other); std::process::exit(2) } }
             }
         }
     }
     let pj = |p: &Part| json!({"evaluations": p.evals, "nontrivial": p.nontrivial, "mismatches": p.mism, "first": p.first, "samples": p.samples});
     out_line(&json!({"summary": true, "lines": lines, "parts": {"frames": pj(&r.frames), "two_byte_headers": pj(&r.hdrs),
-        "concrete_wires": pj(&r.wires), "message_to_frame": pj(&r.msgs)}}));
+        "concrete_wires": pj(&r.wires), "message_to_frame": pj(&r.msgs), "large_frames_bounded_reads": pj(&r.big),
+        "huge_length_fields": pj(&r.huge), "frame_pairs": pj(&r.pairs)}}));
 }
 
 // ---- random executions for Trace_WsFrame -------------------------------------------------------
@@ -337,9 +427,19 @@ fn random(n: usize, max: usize) {
         let same = enc.len() >= len && enc[hl..] == f.payload[..];
         let mut cuts: Vec<usize> = (0..rng.below(5)).map(|_| rng.below(enc.len() + 1)).collect();
         cuts.sort();
-        let g = decode_with(&enc, &cuts);
+        let chunk = *rng.pick(&[0usize, 0, 3, 5, 7, 1021, 4093, 4096, 4099]);
+        let g = decode_chunked(&enc, &cuts, chunk);
         let (dr, df, used) = match &g { Got::Ok(f, u) => ("ok".to_string(), Some(f.clone()), *u), Got::Err(e) => (e.clone(), None, 0), Got::Panic => ("panic".into(), None, 0) };
-        let samples: Vec<[usize; 3]> = match &df { Some(d) if d.payload.len() == len && len > 0 => (0..8).map(|_| { let i = rng.below(len); [i, f.payload[i] as usize, d.payload[i] as usize] }).collect(), _ => vec![] };
+        let samples: Vec<[usize; 3]> = match &df { Some(d) if d.payload.len() == len && len > 0 => {
+            // first / last octets, 4 KiB and 64 KiB block boundaries, the octets around every cut, and random ones
+            let mut idx: Vec<usize> = vec![0, 1, 2, 3, 4, len - 1, len.saturating_sub(2), 4095, 4096, 4097, 8191, 8192, 65535, 65536, 65537, 1 << 20, (1 << 20) + 1];
+            for c in &cuts { for d in 0..4 { idx.push((c + d).saturating_sub(hl + 2)); } }
+            for _ in 0..12 { idx.push(rng.below(len)); }
+            idx.retain(|i| *i < len);
+            idx.sort();
+            idx.dedup();
+            idx.into_iter().map(|i| [i, f.payload[i] as usize, d.payload[i] as usize]).collect() }
+            _ => vec![] };
         let d = match &df { Some(f) => json!({"fin": bi(f.fin), "rsv": [bi(f.rsv[0]), bi(f.rsv[1]), bi(f.rsv[2])], "op": f.opcode, "mask": bi(f.mask), "key": f.masking_key, "len": f.length}), None => zero.clone() };
         out_line(&json!({"k": "frame",
             "f": {"fin": bi(f.fin), "rsv": [bi(f.rsv[0]), bi(f.rsv[1]), bi(f.rsv[2])], "op": f.opcode, "mask": bi(f.mask), "key": f.masking_key, "len": len},
